@@ -195,6 +195,15 @@ func cmdCheck(args []string) {
 	}
 	genS := time.Since(t0).Seconds() - loadS
 	tSolve := time.Now()
+	// obligations recorded as known findings are expected to fail: do not spend the full budget
+	preFindings := readFindings(filepath.Join(*verifDir, "known_findings.txt"))
+	for _, o := range all {
+		for _, f := range preFindings {
+			if f.Kind == "finding" && f.Property == *prop && f.Obligation == shortOb(o.Name) {
+				o.Budget = 10 * time.Second
+			}
+		}
+	}
 	dischargeAll(append(append([]*Oblig{}, all...), covers...), cfg)
 	solveWall := time.Since(tSolve).Seconds()
 
